@@ -413,6 +413,14 @@ func (wk *worker) runPath(fn *ssa.Function, prefix []Dec) (ps *pathState) {
 
 // initPackage runs the package initialiser (transitively, for interpreted packages).
 func (i *interpreter) initPackage(fr *frame, pkg *ssa.Package) {
+	// packages whose initialisers are needed although an importer in between is not initialised
+	for _, path := range []string{"vendor/golang.org/x/net/http/httpguts", "net/url", "net/textproto", "net/http/internal/ascii"} {
+		if p := i.prog.ImportedPackage(path); p != nil {
+			if init := p.Func("init"); init != nil {
+				callIn(i, fr, fr.g, token.NoPos, init, nil)
+			}
+		}
+	}
 	if init := pkg.Func("init"); init != nil {
 		callIn(i, fr, fr.g, token.NoPos, init, nil)
 	}
